@@ -52,3 +52,7 @@ Proof.
     - intros r Hin. apply Hall. right. exact Hin. }
   intros Hall. apply G; [|exact Hall]. cbn. tauto.
 Qed.
+
+(* the translator found the source shape it extracts ranked_return_codes from (otherwise gen/Tables.v carries fallback values and this lemma fails) *)
+Lemma tie_extract_ok_ranked_return_codes : extract_ok_ranked_return_codes = true.
+Proof. reflexivity. Qed.
